@@ -227,6 +227,7 @@ structure TransOK (c : Ctx) (states : List State) (t : Transition) : Prop where
   to : t.to < states.length
   ne0 : t.to ≠ 0
   kernel : KernelOK c (states.getD t.frm []) (states.getD t.to []) t.sym
+  hasKernel : ∃ y ∈ states.getD t.to [], 1 ≤ y.dot
 
 /-- the transition of state `i` on `X` exists and its target holds the moved items (same lookaheads) -/
 def Done (c : Ctx) (states : List State) (trans : List Transition) (i : Nat) (X : Sym Nat Nat) : Prop :=
@@ -251,6 +252,8 @@ structure BInv (c : Ctx) (fm : List FirstSet) (E : Nat → Sym Nat Nat → Prop)
   /-- the augmented initial item lives in state 0 only -/
   aug : ∀ i, i < b.states.length → i ≠ 0 → ∀ y ∈ b.states.getD i [], y.dot = 0 → y.rule < c.numRules
   hasStart : startItem c ∈ b.states.getD 0 []
+  /-- the cores of state 0 are generated from the core of the augmented initial item -/
+  zcore : ∀ y ∈ b.states.getD 0 [], CReach c fm (fun p => p = (c.numRules, 0)) (coreOf y)
 
 /-! ### `enqueue_state_if_needed` -/
 
@@ -610,17 +613,23 @@ theorem enqueueTarget_spec {c : Ctx} {fm : List FirstSet} (hwf : CtxWF c) (hfb :
         tcore := ?_
         func := ?_
         aug := ?_
-        hasStart := sp.mono 0 inv.nonempty _ inv.hasStart }
+        hasStart := sp.mono 0 inv.nonempty _ inv.hasStart
+        zcore := by
+          intro y hy
+          rcases sp.same 0 inv.nonempty with e | ⟨e, _⟩
+          · rw [e] at hy; exact inv.zcore y hy
+          · exact absurd e.symm sp.jne }
     · intro t ht
       rcases insertTransition_mem.mp ht with ht | rfl
       · rw [sp.transEq] at ht
         have old := inv.trans t ht
-        refine ⟨Nat.lt_of_lt_of_le old.frm sp.len, Nat.lt_of_lt_of_le old.to sp.len, old.ne0, ?_⟩
+        refine ⟨Nat.lt_of_lt_of_le old.frm sp.len, Nat.lt_of_lt_of_le old.to sp.len, old.ne0, ?_,
+          (let ⟨y, hy, hd⟩ := old.hasKernel; ⟨y, sp.mono t.to old.to y hy, hd⟩)⟩
         intro y hy hd
         obtain ⟨y0, hy0, e1, e2⟩ := sp.cores t.to old.to y hy
         obtain ⟨x, hx, r1, r2, r3⟩ := old.kernel y0 hy0 (by omega)
         exact ⟨x, sp.mono t.frm old.frm x hx, by rw [r1, e1], by rw [r2, e2], r3⟩
-      · refine ⟨hlen, sp.jlt, sp.jne, ?_⟩
+      · refine ⟨hlen, sp.jlt, sp.jne, ?_, (let ⟨y, hy, hd⟩ := hk; ⟨y, sp.sub y hy, hd⟩)⟩
         intro y hy hd
         simp only at hy ⊢
         obtain ⟨y0, hy0, e1, e2⟩ := sp.coreJ y hy
@@ -712,7 +721,7 @@ theorem enqueueTargets_spec {c : Ctx} {fm : List FirstSet} (hwf : CtxWF c) (hfb 
     intro b b' inv hi _ h
     simp only [enqueueTargets] at h
     cases h
-    refine ⟨inv.nonempty, inv.good, inv.queue, inv.trans, inv.zero, ?_, inv.distinct, inv.tcore, inv.func, inv.aug, inv.hasStart⟩
+    refine ⟨inv.nonempty, inv.good, inv.queue, inv.trans, inv.zero, ?_, inv.distinct, inv.tcore, inv.func, inv.aug, inv.hasStart, inv.zcore⟩
     intro i' hi' hq X' hX'
     rcases inv.done i' hi' hq X' hX' with (h | ⟨_, k, hk, _⟩) | h
     · exact Or.inl h
@@ -798,6 +807,7 @@ theorem buildLoop_spec {c : Ctx} {fm : List FirstSet} (hwf : CtxWF c) (hfb : FmB
             zero := inv.zero
             aug := inv.aug
             hasStart := inv.hasStart
+            zcore := inv.zcore
             distinct := inv.distinct
             tcore := inv.tcore
             func := inv.func
@@ -844,7 +854,14 @@ theorem initial_inv {c : Ctx} {fm : List FirstSet} (hwf : CtxWF c) (hfb : FmBoun
       tcore := by intro t ht; cases ht
       func := by intro t ht; cases ht
       aug := by intro i hi h0; simp at hi; omega
-      hasStart := by simp only [List.getD_cons_zero]; exact h2 _ (List.mem_singleton.mpr rfl) }
+      hasStart := by simp only [List.getD_cons_zero]; exact h2 _ (List.mem_singleton.mpr rfl)
+      zcore := by
+        intro y hy
+        simp only [List.getD_cons_zero] at hy
+        have := (closure_cores h2 h3 h4 h6 (coreOf y)).mp ⟨y, hy, rfl⟩
+        refine CReach.mono ?_ this
+        rintro p ⟨x, hx, rfl⟩
+        simp at hx; subst hx; rfl }
   intro i hi
   simp at hi; subst hi
   simp only [List.getD_cons_zero]
